@@ -4,6 +4,7 @@ CONSTANTS
   MaxSlot = 7
   MaxGen = 2
   MaxFaults = 0
+  MaxPersist = 1
   Variants = 1
   Kinds = {"att"}
   FaultKinds = {}
